@@ -1015,13 +1015,21 @@ def _need_float(x, name):
         raise DTypeError(f"'{name}' does not support dtypes '{x.dtype}', ")
 
 
+def _sqrt_unit(u):
+    """scipp (LLNL units) takes the square root of a unit only if every base-unit exponent is even"""
+    r = u ** Fr(1, 2)
+    if any(Fr(p).denominator != 1 for p in r.dims.values()):
+        raise UnitError(f'Unsupported unit as result of sqrt: sqrt({u}).')
+    return r
+
+
 def sqrt(x, *, out=None):
     if isinstance(x, Unit):
-        return x ** Fr(1, 2)
+        return _sqrt_unit(x)
     _need_float(x, 'sqrt')
     r = sqrt_term(x.val)
     rel = None if x.buf.rel is None else _up((1 + x.buf.rel) * (1 + _u_of(x.dtype)) - 1)
-    res = x._new(r, x.unit ** Fr(1, 2), x.dtype, None, _or(x.buf.nan, x.val < 0), x.buf.defd, rel)
+    res = x._new(r, _sqrt_unit(x.unit) if x.unit is not None else None, x.dtype, None, _or(x.buf.nan, x.val < 0), x.buf.defd, rel)
     return _out(res, out)
 
 
